@@ -97,6 +97,7 @@ def run_replay(pid, path):
     with open(path) as fh:
         doc = json.load(fh)
     mod = _load(pid)
+    import hdc.algo  # noqa: F401 - registers the .hdc accessors (a replay may enter a check below its run())
     outs = []
     for _ in range(2):
         if doc["case"].get("kind") == "__task__":
